@@ -436,8 +436,10 @@ func (c *SCIONClient) measureClockOffsetSCION(ctx context.Context, mtrcs *scionC
 			return time.Time{}, 0, err
 		}
 		validSrc := scionLayer.SrcIA == remoteAddr.IA &&
+			(scionLayer.SrcAddrType == slayers.T4Ip || scionLayer.SrcAddrType == slayers.T16Ip) &&
 			compareIPs(scionLayer.RawSrcAddr, remoteAddr.Host.IP) == 0
 		validDst := scionLayer.DstIA == localAddr.IA &&
+			(scionLayer.DstAddrType == slayers.T4Ip || scionLayer.DstAddrType == slayers.T16Ip) &&
 			compareIPs(scionLayer.RawDstAddr, localAddr.Host.IP) == 0
 		if !validSrc || !validDst {
 			err = errUnexpectedPacket
